@@ -238,12 +238,13 @@ func (h *Handler) Handle(req, resp dhcpv6.DHCPv6) (dhcpv6.DHCPv6, bool) {
 			}
 
 			addPrefix(iapdResp, l)
-			newLeases = append(knownLeases, l)
+			newLeases = append(newLeases, l)
 			log.Debugf("Allocated %s to %s (IAID: %x)", &allocated, client, iapd.IaId)
 		}
 
 		if newLeases != nil {
-			h.Records[recordKey(client)] = newLeases
+			// remember every lease of this exchange, not only the last one
+			h.Records[recordKey(client)] = append(knownLeases, newLeases...)
 		}
 		h.Unlock()
 
